@@ -161,7 +161,7 @@ type workerOutcome struct {
 
 func runWorker(bin string, env []string, outDir, name string, timeout time.Duration) workerOutcome {
 	cmd := exec.Command(bin, "-test.run", "^TestWorker$", "-test.cpu", "1", "-test.timeout", "0")
-	cmd.Env = append(append(os.Environ(), env...), "VERIF_OUT="+outDir, "VERIF_WORKER="+name)
+	cmd.Env = append(append(os.Environ(), env...), "VERIF_OUT="+outDir, "VERIF_WORKER="+name, "VERIF_SCRATCH="+filepath.Join(outDir, "scratch"))
 	var errb bytes.Buffer
 	cmd.Stdout = &errb
 	cmd.Stderr = &errb
@@ -879,13 +879,14 @@ func buildEvidence(prop, tier string, seed int64, d *Describe, results []RunResu
 		"exhaustive":           false,
 		"technique":            "deterministic simulation with fault injection (seeded search over schedules and fault sequences)",
 	}
+	assumptions := append([]string{"go-ethereum secp256k1, Go 1.26.8 testing/synctest and the harness reference models are trusted", "a clean batch is evidence, not proof: the space of histories, schedules and faults is sampled"}, d.Assumptions...)
 	return map[string]interface{}{
 		"property_id": prop,
 		"tier":        tier,
 		"seed":        seed,
 		"level":       level,
 		"coverage":    cov,
-		"assumptions": d.Assumptions,
+		"assumptions": assumptions,
 		"wall_s":      wall.Seconds(),
 		"violations":  nviol,
 	}
